@@ -1,2 +1,10 @@
 import TinsModel.Props.C19
-#print axioms Tins.Props.C19.placeholder
+#print axioms Tins.Props.C19.ack_refines
+#print axioms Tins.Props.C19.segment_acked_iff
+#print axioms Tins.Props.C19.invariant_step
+#print axioms Tins.Props.C19.sack_low_branch_unreachable
+#print axioms Tins.Props.C19.acked_range_two_iterations
+#print axioms Tins.Props.C19.acked_range_points
+#print axioms Tins.Props.C19.interval_set_semantics
+#print axioms Tins.Props.C19.oracle_is_definition
+#print axioms Tins.Props.C19.receiver_histories_conform
